@@ -42,6 +42,9 @@ type DialScenario struct {
 	// CustomAuth: the mechanism is handed over as ONE smtp.Auth value (WithSMTPAuthCustom / SetSMTPAuthCustom):
 	// the same value serves every dial of the Client
 	CustomAuth bool `json:"custom_auth,omitempty"`
+	// FirstDialFails (with the opportunistic policy): the policy is given as a port policy (port 587, fallback
+	// port 25) and the first connection attempt is refused; the dialogue then runs over the fallback port
+	FirstDialFails bool `json:"first_dial_fails,omitempty"`
 	TLS12     bool              `json:"tls12,omitempty"`      // the server only speaks TLS 1.2
 	sasl      *saslServer
 	Timeout   time.Duration     `json:"-"`
@@ -68,6 +71,7 @@ type DialRun struct {
 	Open    bool
 	Clear   []byte
 	Logs    []string
+	DialCtxProblems []string // dial attempts whose context carried no deadline, or one beyond the configured timeout
 	LogsWhole []string
 	Panic   interface{}
 	Client  *mail.Client
@@ -183,13 +187,23 @@ func RunDial(sc *DialScenario) *DialRun {
 	run := &DialRun{}
 	srv := newDialServer(sc, sc.Host)
 	var conn *ScriptConn
-	dial := func(ctx context.Context, network, address string) (net.Conn, error) {
-		conn = NewScriptConn(srv)
-		return conn, nil
-	}
 	timeout := sc.Timeout
 	if timeout == 0 {
 		timeout = 5 * time.Second
+	}
+	dialCalls := 0
+	failFirst := false
+	dial := func(ctx context.Context, network, address string) (net.Conn, error) {
+		dialCalls++
+		if why := dialCtxProblem(ctx, timeout); why != "" {
+			run.DialCtxProblems = append(run.DialCtxProblems, fmt.Sprintf("dial #%d of %s: %s", dialCalls, address, why))
+		}
+		if failFirst && dialCalls == 1 {
+			// the port of the TLS policy is unreachable; the fallback port works
+			return nil, fmt.Errorf("dial tcp %s: connect: connection refused", address)
+		}
+		conn = NewScriptConn(srv)
+		return conn, nil
 	}
 	vr := NewRng(sc.Variant, "client-variant")
 	pick := func() bool { return sc.Variant != 0 && vr.Intn(2) == 1 }
@@ -201,6 +215,9 @@ func RunDial(sc *DialScenario) *DialRun {
 	polForm := 0
 	if sc.Variant != 0 {
 		polForm = vr.Intn(5)
+	}
+	if sc.FirstDialFails && sc.Policy == 1 {
+		polForm = 3
 	}
 	switch polForm {
 	case 1:
@@ -271,6 +288,9 @@ func RunDial(sc *DialScenario) *DialRun {
 		f(client)
 	}
 	run.Client = client
+	// with a port policy for opportunistic TLS there is a fallback port: every third such variant finds the
+	// first port unreachable (the dialogue is the same; the second dial attempt must be as bounded as the first)
+	failFirst = polForm >= 3 && sc.Policy == 1 && (sc.Variant%3 == 1 || sc.FirstDialFails)
 	if !watchdog(60*time.Second, func() {
 		defer func() {
 			if r := recover(); r != nil {
@@ -495,6 +515,19 @@ func directAuth(sc *DialScenario) smtp.Auth {
 		return smtp.ScramSHA1Auth(sc.User, sc.Pass)
 	}
 	return smtp.ScramSHA256Auth(sc.User, sc.Pass)
+}
+
+// dialCtxProblem: the context a dial attempt is given must carry a deadline no later than the configured
+// timeout from now (every network operation, the connection attempt included, is bounded by it)
+func dialCtxProblem(ctx context.Context, timeout time.Duration) string {
+	dl, ok := ctx.Deadline()
+	if !ok {
+		return "the context has no deadline"
+	}
+	if rem := time.Until(dl); rem > timeout+2*time.Second {
+		return fmt.Sprintf("the context's deadline is %v away, the configured timeout is %v", rem.Round(time.Second), timeout)
+	}
+	return ""
 }
 
 func RunAuthFirst(sc *DialScenario) *DialRun {
